@@ -132,6 +132,157 @@ theorem ufunc_out_is_operand_eq (A : Nat) (L e s : Int) (st : φ) :
     Gen.Modes_conjugate_ufunc_out_is_operand_loop (α := α) A L e s st = Gen.Modes_conjugate_inplace_loop (α := α) A L e s st := rfl
 end
 
+/-! ### `_real_func` and `_imag_func` (spin weight 0; the methods raise otherwise), from the source -/
+section
+variable {α : Type} [Scalar α] {φ : Type} [FMem φ α] [LawfulFMem φ α]
+
+/-- the literal `2` that numpy converts to `2+0j` -/
+def two : Cx α := Cx.ofRe (Scalar.ofInt (2 : Int) : α)
+/-- the literal `-1j`, i.e. `complex(-0.0, -1.0)` -/
+def mI : Cx α := Cx.mk (Scalar.neg (Scalar.ofInt (0 : Int) : α)) (Scalar.ofInt (-1 : Int) : α)
+
+/-- `_real_func`: the value stored at `(ell, m)`, `m > 0`, from `x = f(ell, m)`, `y = f(ell, -m)` … -/
+def Pr (m : Int) (x y : Cx α) : Cx α := if m % 2 = 0 then Cx.div (Cx.add x (Cx.conj y)) two else Cx.div (Cx.sub x (Cx.conj y)) two
+/-- … and at `(ell, -m)`: `±conj` of it -/
+def Nr (m : Int) (x y : Cx α) : Cx α :=
+  if m % 2 = 0 then Cx.conj (Cx.div (Cx.add x (Cx.conj y)) two) else Cx.neg (Cx.conj (Cx.div (Cx.sub x (Cx.conj y)) two))
+def Zr (z : Cx α) : Cx α := Cx.ofRe z.re
+def Pi (m : Int) (x y : Cx α) : Cx α :=
+  if m % 2 = 0 then Cx.div (Cx.mul mI (Cx.sub x (Cx.conj y))) two else Cx.div (Cx.mul mI (Cx.add x (Cx.conj y))) two
+def Ni (m : Int) (x y : Cx α) : Cx α :=
+  if m % 2 = 0 then Cx.conj (Cx.div (Cx.mul mI (Cx.sub x (Cx.conj y))) two) else Cx.neg (Cx.conj (Cx.div (Cx.mul mI (Cx.add x (Cx.conj y))) two))
+def Zi (z : Cx α) : Cx α := Cx.ofRe z.im
+
+theorem real_canon (sin : Int → Cx α) (C : Nat) (sw : Int) (L : Int) (st : φ) :
+    Gen.Modes_real_loop (α := α) sin C L 0 sw st
+      = loopN ((L + 1) - ((sw.natAbs : Nat) : Int)).toNat (fun k s => blockG C (fun _ i => sin i) Pr Nr Zr (((sw.natAbs : Nat) : Int) + (k : Int)) s) st := by
+  unfold Gen.Modes_real_loop
+  simp only []
+  refine Lemmas.Object.loopN_congr _ _ _ st (fun k1 hk1 s => ?_)
+  unfold blockG
+  rw [yidx0 _ _ (by omega)]
+  have ec : (((((sw.natAbs : Nat) : Int) + (k1 : Int)) + 1) - 1).toNat = (((sw.natAbs : Nat) : Int) + (k1 : Int)).toNat := by omega
+  rw [ec, Int.add_zero]
+  refine Lemmas.Object.loopN_congr _ _ _ _ (fun k3 hk3 s3 => ?_)
+  rw [yidx0 _ _ (by omega), yidx0 _ _ (by omega)]
+  unfold pairStepG Pr Nr two
+  split <;> rw [GenFill.frdC_fwrC_same]
+
+theorem real_inplace_canon (A : Nat) (sw : Int) (L : Int) (st : φ) :
+    Gen.Modes_real_inplace_loop (α := α) A L 0 sw st
+      = loopN ((L + 1) - ((sw.natAbs : Nat) : Int)).toNat (fun k s => blockG A (fun st i => frdC (α := α) st A i) Pr Nr Zr (((sw.natAbs : Nat) : Int) + (k : Int)) s) st := by
+  unfold Gen.Modes_real_inplace_loop
+  simp only []
+  refine Lemmas.Object.loopN_congr _ _ _ st (fun k1 hk1 s => ?_)
+  unfold blockG
+  rw [yidx0 _ _ (by omega)]
+  have ec : (((((sw.natAbs : Nat) : Int) + (k1 : Int)) + 1) - 1).toNat = (((sw.natAbs : Nat) : Int) + (k1 : Int)).toNat := by omega
+  rw [ec, Int.add_zero]
+  refine Lemmas.Object.loopN_congr _ _ _ _ (fun k3 hk3 s3 => ?_)
+  rw [yidx0 _ _ (by omega), yidx0 _ _ (by omega)]
+  unfold pairStepG Pr Nr two
+  split <;> rw [GenFill.frdC_fwrC_same]
+
+theorem imag_canon (sin : Int → Cx α) (C : Nat) (sw : Int) (L : Int) (st : φ) :
+    Gen.Modes_imag_loop (α := α) sin C L 0 sw st
+      = loopN ((L + 1) - ((sw.natAbs : Nat) : Int)).toNat (fun k s => blockG C (fun _ i => sin i) Pi Ni Zi (((sw.natAbs : Nat) : Int) + (k : Int)) s) st := by
+  unfold Gen.Modes_imag_loop
+  simp only []
+  refine Lemmas.Object.loopN_congr _ _ _ st (fun k1 hk1 s => ?_)
+  unfold blockG
+  rw [yidx0 _ _ (by omega)]
+  have ec : (((((sw.natAbs : Nat) : Int) + (k1 : Int)) + 1) - 1).toNat = (((sw.natAbs : Nat) : Int) + (k1 : Int)).toNat := by omega
+  rw [ec, Int.add_zero]
+  refine Lemmas.Object.loopN_congr _ _ _ _ (fun k3 hk3 s3 => ?_)
+  rw [yidx0 _ _ (by omega), yidx0 _ _ (by omega)]
+  unfold pairStepG Pi Ni two mI
+  split <;> rw [GenFill.frdC_fwrC_same]
+
+theorem imag_inplace_canon (A : Nat) (sw : Int) (L : Int) (st : φ) :
+    Gen.Modes_imag_inplace_loop (α := α) A L 0 sw st
+      = loopN ((L + 1) - ((sw.natAbs : Nat) : Int)).toNat (fun k s => blockG A (fun st i => frdC (α := α) st A i) Pi Ni Zi (((sw.natAbs : Nat) : Int) + (k : Int)) s) st := by
+  unfold Gen.Modes_imag_inplace_loop
+  simp only []
+  refine Lemmas.Object.loopN_congr _ _ _ st (fun k1 hk1 s => ?_)
+  unfold blockG
+  rw [yidx0 _ _ (by omega)]
+  have ec : (((((sw.natAbs : Nat) : Int) + (k1 : Int)) + 1) - 1).toNat = (((sw.natAbs : Nat) : Int) + (k1 : Int)).toNat := by omega
+  rw [ec, Int.add_zero]
+  refine Lemmas.Object.loopN_congr _ _ _ _ (fun k3 hk3 s3 => ?_)
+  rw [yidx0 _ _ (by omega), yidx0 _ _ (by omega)]
+  unfold pairStepG Pi Ni two mI
+  split <;> rw [GenFill.frdC_fwrC_same]
+
+/-- cells of a block loop over `blockG`, fresh output -/
+theorem blockG_loop_fresh (sin : Int → Cx α) (C : Nat) (P N : Int → Cx α → Cx α → Cx α) (Z : Cx α → Cx α) (e0 : Nat) (L : Nat) (st : φ)
+    (ell : Nat) (m : Int) (hm : m.natAbs ≤ ell) (hl : ell ≤ L) (h0 : e0 ≤ ell) :
+    frdC (α := α) (loopN (((L : Int) + 1) - (e0 : Int)).toNat (fun k s => blockG C (fun _ i => sin i) P N Z ((e0 : Int) + (k : Int)) s) st) C ((ell : Int) * ((ell : Int) + 1) + m)
+      = if 0 < m then P m (sin ((ell : Int) * ((ell : Int) + 1) + m)) (sin ((ell : Int) * ((ell : Int) + 1) + -m))
+        else if m < 0 then N (-m) (sin ((ell : Int) * ((ell : Int) + 1) + -m)) (sin ((ell : Int) * ((ell : Int) + 1) + m))
+        else Z (sin ((ell : Int) * ((ell : Int) + 1))) := by
+  rw [set_blocks_cell C e0 L (blockG C (fun _ i => sin i) P N Z)
+    (fun e k => if 0 < k then P k (sin (e * (e + 1) + k)) (sin (e * (e + 1) + -k)) else if k < 0 then N (-k) (sin (e * (e + 1) + -k)) (sin (e * (e + 1) + k)) else Z (sin (e * (e + 1)))) st
+    (fun e s i he hni => blockG_out C _ P N Z e he s i hni)
+    (fun e s k h1 h2 h3 h4 => blockG_cell C _ (stable_const C sin) P N Z e (by omega) s k h3 h4) ell m hm hl, if_pos h0]
+
+/-- cells of a block loop over `blockG`, in place -/
+theorem blockG_loop_inplace (A : Nat) (P N : Int → Cx α → Cx α → Cx α) (Z : Cx α → Cx α) (e0 : Nat) (L : Nat) (st : φ)
+    (ell : Nat) (m : Int) (hm : m.natAbs ≤ ell) (hl : ell ≤ L) (h0 : e0 ≤ ell) :
+    frdC (α := α) (loopN (((L : Int) + 1) - (e0 : Int)).toNat (fun k s => blockG A (fun st i => frdC (α := α) st A i) P N Z ((e0 : Int) + (k : Int)) s) st) A ((ell : Int) * ((ell : Int) + 1) + m)
+      = if 0 < m then P m (frdC (α := α) st A ((ell : Int) * ((ell : Int) + 1) + m)) (frdC (α := α) st A ((ell : Int) * ((ell : Int) + 1) + -m))
+        else if m < 0 then N (-m) (frdC (α := α) st A ((ell : Int) * ((ell : Int) + 1) + -m)) (frdC (α := α) st A ((ell : Int) * ((ell : Int) + 1) + m))
+        else Z (frdC (α := α) st A ((ell : Int) * ((ell : Int) + 1))) := by
+  have hout : ∀ (e : Int) (s : φ) (i : Int), 0 ≤ e → ¬ (e * (e + 1) - e ≤ i ∧ i ≤ e * (e + 1) + e) →
+      frdC (α := α) (blockG A (fun st i => frdC (α := α) st A i) P N Z e s) A i = frdC (α := α) s A i :=
+    fun e s i he hni => blockG_out A _ P N Z e he s i hni
+  obtain ⟨s', a1, a2⟩ := blocks A e0 (L : Int) (blockG A (fun st i => frdC (α := α) st A i) P N Z) st hout (ell : Int) (by omega) (by omega)
+    ((ell : Int) * ((ell : Int) + 1) + m) (by omega) (by omega)
+  rw [a1, blockG_cell A _ (stable_self A) P N Z (ell : Int) (by omega) s' m (by omega) (by omega)]
+  try dsimp only
+  rw [a2 _ (by omega), a2 _ (by omega), a2 _ (by omega)]
+
+/-- **`Modes.real`** from the source (spin weight 0): `(f(ℓ,m) + (−1)^m conj f(ℓ,−m)) / 2` at `m > 0`, its `±conj` at `−m`, `Re f(ℓ,0)` at 0 -/
+theorem gen_real (sin : Int → Cx α) (C : Nat) (L : Nat) (st : φ) (ell : Nat) (m : Int) (hm : m.natAbs ≤ ell) (hl : ell ≤ L) :
+    frdC (α := α) (Gen.Modes_real_loop (α := α) sin C (L : Int) 0 0 st) C ((ell : Int) * ((ell : Int) + 1) + m)
+      = if 0 < m then Pr m (sin ((ell : Int) * ((ell : Int) + 1) + m)) (sin ((ell : Int) * ((ell : Int) + 1) + -m))
+        else if m < 0 then Nr (-m) (sin ((ell : Int) * ((ell : Int) + 1) + -m)) (sin ((ell : Int) * ((ell : Int) + 1) + m))
+        else Zr (sin ((ell : Int) * ((ell : Int) + 1))) := by
+  rw [real_canon]
+  exact blockG_loop_fresh sin C Pr Nr Zr 0 L st ell m hm hl (Nat.zero_le _)
+
+/-- `_real_func(inplace=True)`: the same values, of the array's own previous content -/
+theorem gen_real_inplace (A : Nat) (L : Nat) (st : φ) (ell : Nat) (m : Int) (hm : m.natAbs ≤ ell) (hl : ell ≤ L) :
+    frdC (α := α) (Gen.Modes_real_inplace_loop (α := α) A (L : Int) 0 0 st) A ((ell : Int) * ((ell : Int) + 1) + m)
+      = if 0 < m then Pr m (frdC (α := α) st A ((ell : Int) * ((ell : Int) + 1) + m)) (frdC (α := α) st A ((ell : Int) * ((ell : Int) + 1) + -m))
+        else if m < 0 then Nr (-m) (frdC (α := α) st A ((ell : Int) * ((ell : Int) + 1) + -m)) (frdC (α := α) st A ((ell : Int) * ((ell : Int) + 1) + m))
+        else Zr (frdC (α := α) st A ((ell : Int) * ((ell : Int) + 1))) := by
+  rw [real_inplace_canon]
+  exact blockG_loop_inplace A Pr Nr Zr 0 L st ell m hm hl (Nat.zero_le _)
+
+/-- **`Modes.imag`** from the source (spin weight 0): `−i (f(ℓ,m) − (−1)^m conj f(ℓ,−m)) / 2` at `m > 0`, its `±conj` at `−m`, `Im f(ℓ,0)` at 0 -/
+theorem gen_imag (sin : Int → Cx α) (C : Nat) (L : Nat) (st : φ) (ell : Nat) (m : Int) (hm : m.natAbs ≤ ell) (hl : ell ≤ L) :
+    frdC (α := α) (Gen.Modes_imag_loop (α := α) sin C (L : Int) 0 0 st) C ((ell : Int) * ((ell : Int) + 1) + m)
+      = if 0 < m then Pi m (sin ((ell : Int) * ((ell : Int) + 1) + m)) (sin ((ell : Int) * ((ell : Int) + 1) + -m))
+        else if m < 0 then Ni (-m) (sin ((ell : Int) * ((ell : Int) + 1) + -m)) (sin ((ell : Int) * ((ell : Int) + 1) + m))
+        else Zi (sin ((ell : Int) * ((ell : Int) + 1))) := by
+  rw [imag_canon]
+  exact blockG_loop_fresh sin C Pi Ni Zi 0 L st ell m hm hl (Nat.zero_le _)
+
+theorem gen_imag_inplace (A : Nat) (L : Nat) (st : φ) (ell : Nat) (m : Int) (hm : m.natAbs ≤ ell) (hl : ell ≤ L) :
+    frdC (α := α) (Gen.Modes_imag_inplace_loop (α := α) A (L : Int) 0 0 st) A ((ell : Int) * ((ell : Int) + 1) + m)
+      = if 0 < m then Pi m (frdC (α := α) st A ((ell : Int) * ((ell : Int) + 1) + m)) (frdC (α := α) st A ((ell : Int) * ((ell : Int) + 1) + -m))
+        else if m < 0 then Ni (-m) (frdC (α := α) st A ((ell : Int) * ((ell : Int) + 1) + -m)) (frdC (α := α) st A ((ell : Int) * ((ell : Int) + 1) + m))
+        else Zi (frdC (α := α) st A ((ell : Int) * ((ell : Int) + 1))) := by
+  rw [imag_inplace_canon]
+  exact blockG_loop_inplace A Pi Ni Zi 0 L st ell m hm hl (Nat.zero_le _)
+
+/-- in place and fresh agree, for `real` and `imag` as for `conjugate` -/
+theorem gen_real_inplace_eq (A C : Nat) (L : Nat) (st st' : φ) (ell : Nat) (m : Int) (hm : m.natAbs ≤ ell) (hl : ell ≤ L) :
+    frdC (α := α) (Gen.Modes_real_inplace_loop (α := α) A (L : Int) 0 0 st) A ((ell : Int) * ((ell : Int) + 1) + m)
+      = frdC (α := α) (Gen.Modes_real_loop (α := α) (fun i => frdC (α := α) st A i) C (L : Int) 0 0 st') C ((ell : Int) * ((ell : Int) + 1) + m) := by
+  rw [gen_real_inplace A L st ell m hm hl, gen_real _ C L st' ell m hm hl]
+end
+
 /-- non-vacuity: IEEE doubles, spin 1, `ell_max = 3`, the cell (2, −1), in place -/
 example (st : HFMem Float) :
     frdC (α := Float) (Gen.Modes_conjugate_inplace_loop (α := Float) 7 ((3 : Nat) : Int) 0 1 st) 7 (((2 : Nat) : Int) * (((2 : Nat) : Int) + 1) + (-1))
